@@ -3,7 +3,7 @@ CONSTANTS
   Kind <- TKind
   UpOf <- TUpOf
   Upstreams <- TUpstreams
-  IdleMax = 340
+  IdleMax = 440
   IdleTimer = TRUE
   CheckClosed = TRUE
   MaxTime = 100000000
